@@ -85,3 +85,34 @@ func lemmaTableRangeContainsColl(dt byte, table, key, sub []byte) (start, stop, 
 	lemmaLexLessAt(ek, stop, len(start)-1)
 	return
 }
+
+// ---- order-preserving integer codec ----
+
+func lemmaIntCodecRoundTrip(pre []byte, v int64) ([]byte, int64, error) {
+	ek := EncodeInt(pre, v)
+	return DecodeInt(ek[len(pre):])
+}
+
+func lemmaIntDescCodecRoundTrip(pre []byte, v int64) ([]byte, int64, error) {
+	ek := EncodeIntDesc(pre, v)
+	return DecodeIntDesc(ek[len(pre):])
+}
+
+func lemmaUintCodecRoundTrip(pre []byte, v uint64) ([]byte, uint64, error) {
+	ek := EncodeUint(pre, v)
+	return DecodeUint(ek[len(pre):])
+}
+
+func lemmaBE64Lex(a, b []byte) {}
+
+func lemmaIntCodecOrder(v1, v2 int64) ([]byte, []byte) {
+	a, b := EncodeInt(nil, v1), EncodeInt(nil, v2)
+	lemmaBE64Lex(a, b)
+	return a, b
+}
+
+func lemmaIntDescCodecOrder(v1, v2 int64) ([]byte, []byte) {
+	a, b := EncodeIntDesc(nil, v1), EncodeIntDesc(nil, v2)
+	lemmaBE64Lex(a, b)
+	return a, b
+}
